@@ -61,6 +61,22 @@ CHECKS["C14"] = ("exploration",
    "All 2231 names x {exact, last character dropped} x 16 followers x {data, RCDATA, attribute dq/sq/uq}, each unchunked and cut at every position inside the reference; audit of web_atoms::NAMED_ENTITIES against the table (values, prefix entries, nothing extra); every numeric value 0..=0x110000 as decimal, #x lower, #X upper, #x upper, with and without ';' (all cuts and all contexts in thorough); overflow digit counts up to 22; non-references.",
    "Expected values from R-tok's character-reference states over python's html.entities.html5 (independent copy of the WHATWG table).",
    "DESIGN.md §3 C14", "E4 sweep")
+E3NOTE = "Corpus: shortest witness of every tokenizer control state (4 start configurations) x every lexeme x 3 closers (1.7e5 token-level inputs), all pairs of tree lexemes + every insertion-mode witness x lexeme (3.6e4 tree-level inputs), hand-listed look-ahead stress strings. Schedules: <=2 cuts quick (all 2^(n-1) chunkings for n<=7), <=3 cuts thorough (all chunkings n<=12), one empty feed at every position."
+CHECKS["C03"] = ("fault_enumeration",
+   "deviation-bounded exhaustive schedule enumeration (chunk cuts, empty feeds, script pauses with injected text) against the one-piece run",
+   "For every corpus input, every schedule inside the bound is executed on the real tokenizer (token level, recording sink) and on the real parser (tree level) and compared with the one-piece run: canonical token stream, tokenizer parse errors with their position, every token's line (character run: line delivered with its last piece), non-Done feed results, final tree and quirks mode. Script pauses: every (pause, injected string from x, <b>, LF, &am, U+FEFF, </script>, <script>y</script>) pair under every <=1/2-cut chunking must equal the one-piece run of the source with the text spliced in after the script end tag; at every Script return the tokenizer is in the data state and the unread queue is exactly the unconsumed suffix.",
+   E3NOTE + " Differential oracle (no model). Tree-builder error reports are not compared (they are per character-token piece by design).",
+   "DESIGN.md §3 C03", "E3 sched")
+CHECKS["C08"] = ("fault_enumeration",
+   "C03 corpus x schedules x option lattice, differential against the default-options run under the same schedule",
+   "Every option vector (tokenizer exact_errors x discard_bom; tree level tokenizer/tree-builder exact_errors x drop_doctype x discard_bom; profile on an exhaustive slice in a child process with stdout closed) is compared with the all-default run under the same schedule: token stream minus ParseError tokens, lines of non-character tokens, final tree, quirks mode, encoding indicators. Permitted differences only: one leading U+FEFF that is the first character of the stream (discard_bom), the doctype child (drop_doctype). SIMD window strings (15..48 x's with one special character at every position) compare the scalar path, forced by exact_errors, with the SIMD path.",
+   E3NOTE + " <=1 cut quick / <=2 thorough for the option lattice. xml5ever options are covered by C15.",
+   "DESIGN.md §3 C08", "E3 sched")
+CHECKS["C15"] = ("fault_enumeration",
+   "deviation-bounded schedule x option enumeration on xml5ever against the one-chunk default run + metamorphic line-break / NUL variants",
+   "Corpus: shortest witness of every xml tokenizer control state x every lexeme of a 41-symbol alphabet x 3 closers, plus hand-listed strings around character references, CDATA, PI, DOCTYPE. Every schedule with <=2 cuts (all chunkings up to 6 chars; <=3 / 11 thorough) x {default, exact_errors, discard_bom=false}: token stream and model-DOM tree equal to the one-chunk default run. Absolute rules on every baseline: no U+000D and no U+0000 delivered anywhere. Metamorphic: replacing every LF by CR or CRLF, and every NUL by U+FFFD, must not change the tree (so a line break next to a character reference is neither lost nor doubled). U+FEFF dropped only as the first character of the stream.",
+   "No XML5 reference model (the property is differential). Alphabet-bounded.",
+   "DESIGN.md §3 C15", "xml + E3")
 PENDING = {}
 def main():
     checks = []
